@@ -59,6 +59,63 @@ pub fn check(e: &OpeningHoursExpression, hol: &HolSpec, r: &mut Rng, sweep: i64)
     Ok((same1, same2))
 }
 
+
+/// String-level round trip, for parsed expressions that the renderer cannot produce from an AST it
+/// would generate itself (short forms the parser expands, values only reachable through the
+/// parser's own arithmetic, mutated sample lines): parse, print, reparse, compare the evaluation of
+/// the original string and of its printed form, and the same for the normal form.
+pub fn check_text(text: &str, hol: &HolSpec, r: &mut Rng) -> Result<bool, String> {
+    let Ok(ast) = lib_parse(text) else { return Ok(false) };
+    let printed = guarded(|| ast.to_string()).map_err(|p| format!("printing panicked: {p}"))?;
+    let reparsed = lib_parse(&printed).map_err(|e| format!("prints as {printed:?}, which does not parse back: {e}"))?;
+    let a = build(text, hol).ok_or("accepted by the syntax crate but rejected by OpeningHours::parse")?;
+    let b = build(&printed, hol).ok_or_else(|| format!("printed form {printed:?} rejected by OpeningHours::parse"))?;
+    let days = evalcmp::comparison_days(&[&ast, &reparsed], hol, r, 48, 32, 0);
+    if let Some((_, diff)) = evalcmp::first_difference(&a, &b, &days, true)? {
+        return Err(format!("prints as {printed:?}, which evaluates differently {diff} (original vs reparsed)"));
+    }
+    let norm = guarded(|| a.normalize()).map_err(|p| format!("normalize panicked: {p}"))?;
+    let np = guarded(|| norm.to_string()).map_err(|p| format!("printing the normal form panicked: {p}"))?;
+    let n_reparsed = lib_parse(&np).map_err(|e| format!("the normal form prints as {np:?}, which does not parse back: {e}"))?;
+    let nb = build(&np, hol).ok_or_else(|| format!("normal form {np:?} rejected by OpeningHours::parse"))?;
+    let days = evalcmp::comparison_days(&[&n_reparsed], hol, r, 48, 32, 0);
+    if let Some((_, diff)) = evalcmp::first_difference(&norm, &nb, &days, true)? {
+        return Err(format!("the normal form prints as {np:?}, which evaluates differently {diff} (normal form vs reparsed)"));
+    }
+    Ok(true)
+}
+
+/// Short forms and boundary values that only exist on the string side.
+fn short_form_texts() -> Vec<String> {
+    let months = ["Jan", "Feb", "Mar", "Apr", "May", "Jun", "Jul", "Aug", "Sep", "Oct", "Nov", "Dec"];
+    let mut v = Vec::new();
+    for y in ["", "1900 ", "1901 ", "2024 ", "9998 ", "9999 "] {
+        for m in months {
+            for (d1, d2) in [(25, 3), (31, 1), (2, 1), (15, 15), (3, 25), (29, 28), (31, 30)] {
+                for tail in ["", " 10:00-12:00", ": 22:00-26:00 unknown \"c\""] {
+                    v.push(format!("{y}{m} {d1}-{d2}{tail}"));
+                    v.push(format!("24/7; {y}{m} {d1}-{d2}{tail}"));
+                }
+            }
+            v.push(format!("{y}{m} 31+"));
+            v.push(format!("{y}{m} 01-{m} 31"));
+            v.push(format!("{y}{m}+"));
+            v.push(format!("{y}{m} 30 +2 days-31"));
+        }
+        v.push(format!("{y}easter -2 days-{y}easter +1 day"));
+        v.push(format!("{y}Dec 31 +1 day"));
+        v.push(format!("{y}Jan 01 -1 day"));
+        v.push(format!("{y}Dec 24-Jan 02"));
+    }
+    for y in ["1900", "9999", "1900-9999", "9999+", "1900+", "9998-9999/2", "9999-1900", "1900-1900/5"] {
+        v.push(y.to_string());
+        v.push(format!("{y} Dec 25-Jan 05"));
+        v.push(format!("{y} week 53 Su"));
+        v.push(format!("{y} Dec"));
+    }
+    v
+}
+
 fn report_failure(args: &Args, rep: &mut Report, ast: &OpeningHoursExpression, hol: &HolSpec, msg: &str) {
     let fails = |c: &OpeningHoursExpression| -> Option<String> {
         let mut r = Rng::new(5, 0, 0);
@@ -132,6 +189,49 @@ pub fn run(args: &Args, rep: &mut Report) {
         }
     }
     // real-world shapes from the repository's sample file and test sources
+    // string-level family: short forms, boundary values, mutated sample lines
+    for (i, text) in short_form_texts().iter().enumerate() {
+        if (i as u64) % args.of.max(1) != args.worker || rep.full() {
+            continue;
+        }
+        rep.evaluations += 1;
+        rep.begin(text);
+        let mut r = Rng::new(args.seed, 0x7e87, i as u64);
+        match check_text(text, &HolSpec::None, &mut r) {
+            Ok(true) => rep.count("text_level_roundtrips_ok"),
+            Ok(false) => rep.count("text_level_rejected_by_parser"),
+            Err(msg) => rep.violation("print_parse_roundtrip", format!("{text:?} [none]: {msg}"), json!({"expr": text, "holidays": "none", "text_level": true}), lib_parse(text).ok().and_then(|a| known::explained_by(&args.known, &a))),
+        }
+    }
+    {
+        let samples = super::c04::sample_lines();
+        let n_mut = args.cases(40_000, 600_000);
+        for k in 0..n_mut {
+            if rep.full() || samples.is_empty() {
+                break;
+            }
+            let mut r = Rng::new(args.seed ^ 0x6d75, args.worker, k);
+            let base = if k % 2 == 0 {
+                samples[r.below(samples.len() as u64) as usize].clone()
+            } else {
+                let cfg = GenCfg::standard(false).rotated(k);
+                let ast = expr::gen_expr(&mut r, &cfg);
+                let mut v = render::Variants::random(Rng::new(args.seed ^ 9, args.worker, k));
+                render::expr(&mut v, &ast)
+            };
+            let text = super::c04::mutate(&mut r, &base);
+            rep.evaluations += 1;
+            rep.begin(&text);
+            match check_text(&text, &HolSpec::None, &mut r) {
+                Ok(true) => {
+                    rep.count("mutated_strings_roundtrips_ok");
+                    rep.nontrivial(crate::rng::hash64(&text));
+                }
+                Ok(false) => rep.count("mutated_strings_rejected_by_parser"),
+                Err(msg) => rep.violation("print_parse_roundtrip", format!("{text:?} [none]: {msg}"), json!({"expr": text, "holidays": "none", "text_level": true}), lib_parse(&text).ok().and_then(|a| known::explained_by(&args.known, &a))),
+            }
+        }
+    }
     for (i, text) in corpus().iter().enumerate() {
         if (i as u64) % args.of.max(1) != args.worker {
             continue;
@@ -139,6 +239,10 @@ pub fn run(args: &Args, rep: &mut Report) {
         let Ok(ast) = lib_parse(text) else { continue };
         if !denotable(&ast) {
             rep.count("corpus_not_denotable_by_renderer");
+            let mut r = Rng::new(args.seed, 0xc0c1, i as u64);
+            if let Err(msg) = check_text(text, &HolSpec::None, &mut r) {
+                rep.violation("print_parse_roundtrip", format!("{text:?} [none] (from the repository's sample/test sources): {msg}"), json!({"expr": text, "holidays": "none", "text_level": true}), known::explained_by(&args.known, &ast));
+            }
             continue;
         }
         let hol = if has_holiday_selector(&ast) { crate::gen::ctx::HolSpec::Country("FR".into()) } else { crate::gen::ctx::HolSpec::None };
